@@ -97,6 +97,9 @@ def len (t : Tup) : Int := t.length
 /-- `x in t` -/
 def mem (x : Int) (t : Tup) : Bool := t.contains x
 
+/-- `set(s).issuperset(t)` on tuples of ints: every element of `t` occurs in `s` -/
+def issuperset (s t : Tup) : Bool := t.all (fun x => s.contains x)
+
 /-- `del t[i]` (negative indices as in Python; `IndexError` out of range) -/
 def delAt (t : Tup) (i : Int) : M Tup :=
   let j := if i < 0 then i + t.length else i
